@@ -20,8 +20,8 @@
                 assert(buf@.len() == 3 && len == inbox0[2] as int);
             }
         }
-    //@ tail
-        // and the body
+    //@ after self.source.read_exact(&mutbuf[start..])
+        // and the body (directly behind the read, so that every later exit - also the `?` of the parser - sees it)
         proof {
             assert(buf@ =~= inbox0.take(buf@.len() as int));
             assert(apdu_total(inbox0) == Some(buf@.len() as int));
